@@ -443,3 +443,211 @@ def gen_inputs(rng: random.Random, rules, start: str, feats: set, n: int) -> lis
                 s = s[: rng.randint(0, len(s))] + rng.choice(["", "", " ", "#", "a"])
         out.append(s)
     return out
+
+
+# ---------------------------------------------------------------- stack/backtracking templates (C05)
+
+def gen_stack_ops(rng: random.Random, n: int, depth: int):
+    """a sequence of n stack-touching items; nested catch points (optional, choice, predicates,
+    repetition) around successful sub-matches that pop and push"""
+    items = []
+    for _ in range(n):
+        k = rng.choice(["pop", "pop", "drop", "peek", "push", "push", "pushlit", "opt", "choice", "and", "not",
+                        "popall", "peekall", "slice", "lit", "rep"] if depth > 0 else
+                       ["pop", "pop", "drop", "peek", "push", "pushlit", "lit"])
+        if k in ("pop", "drop", "peek", "popall", "peekall"):
+            items.append((k,))
+        elif k == "push":
+            items.append(("push", ("id", "l", None)))
+        elif k == "pushlit":
+            items.append(("pushlit", rng.choice(["a", "b"])))
+        elif k == "lit":
+            items.append(("str", rng.choice(["a", "b", "!"])))
+        elif k == "slice":
+            items.append(("slice", rng.choice([None, 0, 1, -1]), rng.choice([None, 1, 2, -1])))
+        elif k == "opt":
+            items.append(("opt", ("group", ("seq", gen_stack_ops(rng, rng.choice([2, 3]), depth - 1)), None)))
+        elif k == "rep":
+            items.append(("max", ("group", ("seq", gen_stack_ops(rng, 2, depth - 1) + [("str", "a")]), None), 2))
+        elif k == "choice":
+            items.append(("group", ("choice", [("seq", gen_stack_ops(rng, rng.choice([2, 3]), depth - 1) + [("str", "!")]),
+                                               ("seq", gen_stack_ops(rng, rng.choice([1, 2]), depth - 1))]), None))
+        elif k == "and":
+            items.append(("and", ("group", ("seq", gen_stack_ops(rng, rng.choice([2, 3]), depth - 1)), None)))
+        else:
+            items.append(("not", ("group", ("seq", gen_stack_ops(rng, rng.choice([2, 3]), depth - 1) + [("str", "!")]), None)))
+    return items
+
+
+def gen_stack_template(rng: random.Random):
+    """r = { PUSH(l) ~ PUSH(l) ~ (A ~ "!" | B) ~ C ~ EOI? } over the alphabet {a, b, !}"""
+    a_ = gen_stack_ops(rng, rng.choice([2, 3, 4]), 2)
+    b_ = gen_stack_ops(rng, rng.choice([1, 2, 3]), 1)
+    c_ = gen_stack_ops(rng, rng.choice([1, 2, 3]), 1)
+    body = [("push", ("id", "l", None)), ("push", ("id", "l", None))]
+    if rng.random() < 0.5:
+        body.append(("push", ("id", "l", None)))
+    body.append(("group", ("choice", [("seq", a_ + [("str", "!")]), ("seq", b_)]), None))
+    body += c_
+    if rng.random() < 0.6:
+        body.append(("id", "EOI", None))
+    rules = {"r": (rng.choice(["", "", "@", "$"]), ("seq", body)), "l": (rng.choice(["", "_"]), ("range", "a", "b"))}
+    if rng.random() < 0.3:
+        rules["WHITESPACE"] = ("_", ("str", " "))
+    return rules
+
+
+def _nc_ops(rng: random.Random, n: int, depth: int):
+    """non-consuming stack manipulations (DROP, PUSH_LITERAL) with nested *successful* catch points"""
+    items = []
+    for _ in range(n):
+        k = rng.choice(["drop", "drop", "drop", "pushlit", "pushlit", "nest", "nest"] if depth > 0
+                       else ["drop", "drop", "pushlit"])
+        if k == "drop":
+            items.append(("drop",))
+        elif k == "pushlit":
+            items.append(("pushlit", rng.choice(["a", "b", "x", "xy"])))
+        else:
+            inner = ("group", ("seq", _nc_ops(rng, rng.choice([1, 2, 3]), depth - 1)), None)
+            form = rng.choice(["opt", "choice", "max", "group", "rep"])
+            if form == "opt":
+                items.append(("opt", inner))
+            elif form == "choice":
+                items.append(("group", ("choice", [("seq", _nc_ops(rng, 2, depth - 1) + [("str", "!")]), inner]), None))
+            elif form == "max":
+                items.append(("max", inner, 1))
+            elif form == "rep":
+                # one successful iteration, then an iteration that fails after changing the stack
+                items.append(("minmax", ("group", ("seq", [("drop",), ("pushlit", "b")]), None), 1, 1))
+            else:
+                items.append(inner)
+    return items
+
+
+def gen_stack_template2(rng: random.Random):
+    """Every manipulation is non-consuming, the part under test is abandoned by a catch point, and the
+    grammar ends with PEEK_ALL ~ EOI: the one input it accepts *is* the stack content (top to bottom)
+    after the backtracking.  Enumerating all short inputs therefore reads the stack exactly."""
+    pre = [("pushlit", x) for x in rng.sample(["a", "b", "ab", "x", "ba"], rng.choice([2, 3, 4]))]
+    a_ = _nc_ops(rng, rng.choice([2, 3, 4, 5]), 2)
+    how = rng.choice(["choice", "opt", "not", "and", "rep", "choice"])
+    bad = ("seq", a_ + [("str", "!")])
+    if how == "choice":
+        undo = ("group", ("choice", [bad, ("seq", _nc_ops(rng, rng.choice([0, 1, 2]), 1) or [("pushlit", "a"), ("drop",)])]), None)
+    elif how == "opt":
+        undo = ("opt", ("group", bad, None))
+    elif how == "not":
+        undo = ("not", ("group", bad, None))
+    elif how == "and":
+        undo = ("and", ("group", ("seq", a_), None))          # a *successful* predicate is undone too
+    else:
+        undo = ("max", ("group", bad, None), 2)
+    post = _nc_ops(rng, rng.choice([0, 1, 2]), 1)
+    body = pre + ([("opt", ("group", ("seq", _nc_ops(rng, 2, 1)), None))] if rng.random() < 0.3 else []) + [undo] + post
+    body += [("peekall",), ("id", "EOI", None)]
+    return {"r": (rng.choice(["", "@"]), ("seq", body))}
+
+
+# ---------------------------------------------------------------- stack histories as grammars (C05 ~ C09 at grammar level)
+
+HIST_TOKENS = ["P", "D", "[c", "[a", "]"]
+
+
+def balanced_histories(max_len: int):
+    """all token sequences over push / drop / [commit … ] / [abort … ] with balanced brackets"""
+    out = []
+
+    def rec(seq, depth):
+        if depth == 0 and seq:
+            out.append(tuple(seq))
+        if len(seq) >= max_len:
+            return
+        for t in HIST_TOKENS:
+            if t == "]":
+                if depth > 0 and seq[-1] not in ("[c", "[a"):
+                    rec(seq + [t], depth - 1)
+            elif t in ("[c", "[a"):
+                if len(seq) + 2 < max_len + 0:
+                    rec(seq + [t], depth + 1)
+            else:
+                rec(seq + [t], depth)
+
+    rec([], 0)
+    return out
+
+
+def history_grammar(tokens, pre: int = 3):
+    """pre-existing entries a, b, c; then the history; then PEEK_ALL ~ EOI reads the stack out.
+    [c…] = a nested construct that succeeds (group / optional), [a…] = one that is abandoned
+    ((… ~ "!")?): every stack change made inside must be undone."""
+    fresh = iter("xyzuvw" * 4)
+
+    def build(i):
+        items = []
+        while i < len(tokens):
+            t = tokens[i]
+            if t == "P":
+                items.append(("pushlit", next(fresh)))
+                i += 1
+            elif t == "D":
+                items.append(("drop",))
+                i += 1
+            elif t == "]":
+                return items, i + 1
+            else:
+                inner, j = build(i + 1)
+                if t == "[c":
+                    # a catch point that commits: optional, or the first alternative of a choice
+                    items.append(("opt", ("group", ("seq", inner), None)) if len(inner) % 2
+                                 else ("group", ("choice", [("seq", inner), ("str", "!")]), None))
+                else:
+                    items.append(("opt", ("group", ("seq", inner + [("str", "!")]), None)))
+                i = j
+        return items, i
+
+    items, _ = build(0)
+    body = [("pushlit", x) for x in "abc"[:pre]] + items + [("peekall",), ("id", "EOI", None)]
+    return {"r": ("", ("seq", body))}
+
+
+def history_contents(tokens, pre: int = 3):
+    """(stack content with full-copy semantics, content if nothing were undone) as top-to-bottom strings;
+    None if the history fails outright (DROP on an empty stack outside an abandoned part)"""
+    fresh = iter("xyzuvw" * 4)
+    fresh2 = iter("xyzuvw" * 4)
+
+    def run(i, st, undo):
+        while i < len(tokens):
+            t = tokens[i]
+            if t == "P":
+                st = st + [next(fresh if undo else fresh2)]
+                i += 1
+            elif t == "D":
+                if not st:
+                    return None, i
+                st = st[:-1]
+                i += 1
+            elif t == "]":
+                return st, i + 1
+            else:
+                # find the matching bracket
+                depth, j = 1, i + 1
+                while depth:
+                    depth += {"[c": 1, "[a": 1, "]": -1}.get(tokens[j], 0)
+                    j += 1
+                inner, _ = run(i + 1, st, undo)
+                if t == "[c":
+                    # optional/group: a failing inner part is skipped by the optional (odd length) or fails the group
+                    st = inner if inner is not None else st
+                elif not undo and inner is not None:
+                    st = inner
+                else:
+                    # consume fresh names the abandoned part used, to stay in step with the grammar
+                    pass
+                i = j
+        return st, i
+
+    a, _ = run(0, list("abc"[:pre]), True)
+    b, _ = run(0, list("abc"[:pre]), False)
+    f = lambda st: None if st is None else "".join(reversed(st))  # noqa: E731
+    return f(a), f(b)
